@@ -579,6 +579,8 @@ class IS:
                     return arr((args[0][1],), None)
                 if name == "fftfreq":
                     return arr((("G", None),), None)
+                if name == "arange" and len(args) == 1 and isinstance(args[0], tuple) and args[0][0] == "size":
+                    return arr((args[0][1],), None)
                 return arr((STENCIL,) * (2 if name == "eye" else 1), None)
             if name == "atleast_2d" and args and is_arr(args[0]):
                 return arr((UNIT,) + tuple(args[0][1]), args[0][2])
